@@ -233,12 +233,18 @@ func TestVerifChainExec(t *testing.T) {
 				ntx = 1
 			}
 			lowConflict := r.Intn(3) == 0
-			hotKey := (mode == "c01" || mode == "c24") && r.Intn(3) == 0
-			hot := w.keyNames[r.Intn(len(w.keyNames))]
+			hotKey := (mode == "c01" || mode == "c24") && r.Intn(5) < 2
+			hp := r.Perm(len(w.keyNames))
+			hots := []string{w.keyNames[hp[0]]}
+			if r.Intn(2) == 0 {
+				hots = append(hots, w.keyNames[hp[1]])
+			}
+			directed := r.Intn(2) == 0
+			dirReaders := 1 + r.Intn(3)
 			if hotKey {
 				lowConflict = true
 				if ntx < 3 {
-					ntx = 3 + r.Intn(4)
+					ntx = 4 + r.Intn(5)
 				}
 			}
 			var vtxs []vTx
@@ -265,20 +271,50 @@ func TestVerifChainExec(t *testing.T) {
 					v.Expiry -= 1000
 				}
 				if hotKey {
-					// readers and writers of one hot key, every tx with its own sponsor and its own value:
-					// the order in which conflicting transactions ran is visible in what each one read
+					// readers and writers of one or two hot keys, every tx with its own sponsor and its own values:
+					// the order in which conflicting transactions ran is visible in what each one read.  With two hot
+					// keys a transaction may read one and write the other (reader and writer relative to the same
+					// earlier transaction), and the first transaction touches both.
 					na = 0
 					nonceCounter++
 					a := &VerifAction{Compute: 1, Start: -1, End: -1, Nonce: nonceCounter}
-					if r.Intn(2) == 0 {
-						a.Keys = []vKey{{Name: hot, Perm: 1, Chunks: w.chunks[hot]}}
-						a.Ops = []vOp{{Op: "get", K: hot}}
-					} else {
-						a.Keys = []vKey{{Name: hot, Perm: 7, Chunks: w.chunks[hot]}}
-						a.Ops = []vOp{{Op: "get", K: hot}, {Op: "put", K: hot, V: fmt.Sprintf("t%d", i)}}
-						if r.Intn(5) == 0 {
-							a.Ops = []vOp{{Op: "get", K: hot}, {Op: "del", K: hot}}
+					for hi, hk := range hots {
+						mode3 := r.Intn(3) // 0 none, 1 read, 2 read-write
+						if directed && len(hots) == 2 {
+							// tx0 writes both; txs 1..k only read the second key; tx k+1 reads the first and writes the second
+							switch {
+							case i >= 1 && i <= dirReaders:
+								mode3 = hi // first key: none, second key: read
+							case i == dirReaders+1:
+								mode3 = 1 + hi // first key: read, second key: read-write
+							}
 						}
+						if i == 0 || (len(hots) == 1 && mode3 == 0) {
+							mode3 = 2 - r.Intn(2)*(1-hi%2)*0
+							if i == 0 {
+								mode3 = 2
+							}
+						}
+						if len(hots) == 1 && mode3 == 0 {
+							mode3 = 1
+						}
+						switch mode3 {
+						case 1:
+							a.Keys = append(a.Keys, vKey{Name: hk, Perm: 1, Chunks: w.chunks[hk]})
+							a.Ops = append(a.Ops, vOp{Op: "get", K: hk})
+						case 2:
+							a.Keys = append(a.Keys, vKey{Name: hk, Perm: 7, Chunks: w.chunks[hk]})
+							a.Ops = append(a.Ops, vOp{Op: "get", K: hk})
+							if r.Intn(6) == 0 {
+								a.Ops = append(a.Ops, vOp{Op: "del", K: hk})
+							} else {
+								a.Ops = append(a.Ops, vOp{Op: "put", K: hk, V: fmt.Sprintf("t%d%s", i, hk)})
+							}
+						}
+					}
+					if len(a.Keys) == 0 {
+						a.Keys = append(a.Keys, vKey{Name: hots[0], Perm: 1, Chunks: w.chunks[hots[0]]})
+						a.Ops = append(a.Ops, vOp{Op: "get", K: hots[0]})
 					}
 					v.Actions = append(v.Actions, a)
 				}
@@ -316,6 +352,9 @@ func TestVerifChainExec(t *testing.T) {
 			}
 			cfgs := []execCfg{{Cores: 1, Fetch: 1, AuthW: 0}, {Cores: 2 + r.Intn(3), Fetch: 1 + r.Intn(4), AuthW: 1 + r.Intn(3), Gated: true},
 				{Cores: []int{8, 16}[r.Intn(2)], Fetch: []int{4, 16}[r.Intn(2)], AuthW: 4, Gated: true}, {Cores: 4, Fetch: 2, AuthW: 2}}
+			if hotKey {
+				cfgs = append([]execCfg{{Cores: 4, Fetch: 2, AuthW: 1, Gated: true}, {Cores: 3, Fetch: 4, AuthW: 2, Gated: true}}, cfgs...)
+			}
 			var last *blockOutcome
 			for rep, cfg := range cfgs {
 				failKey, failName := "", ""
